@@ -79,6 +79,14 @@ pub struct GateInner {
     pub fclosed: bool,
     /// number of `flush` calls currently blocked in the flush gate (0 or 1)
     pub fblocked: usize,
+    /// `flush` calls that may pass although the flush gate is shut (`fstep`)
+    pub fpermits: usize,
+    /// number of `flush` calls that have passed the shut gate on such a permit
+    pub fstepped: usize,
+    /// recorder gate: while true the writer's end-of-cycle histogram callbacks block
+    pub hclosed: bool,
+    /// number of histogram callbacks currently blocked (0 or 1)
+    pub hblocked: usize,
 }
 
 #[derive(Default)]
@@ -107,8 +115,31 @@ impl GateShared {
         g.stamps.push(self.tick());
     }
     pub fn set_fclosed(&self, closed: bool) {
-        self.lock().fclosed = closed;
+        let mut g = self.lock();
+        g.fclosed = closed;
+        g.fpermits = 0;
+        drop(g);
         self.cv.notify_all();
+    }
+    /// let exactly one `flush` call through the shut flush gate
+    pub fn fstep(&self) {
+        self.lock().fpermits += 1;
+        self.cv.notify_all();
+    }
+    pub fn set_hclosed(&self, closed: bool) {
+        self.lock().hclosed = closed;
+        self.cv.notify_all();
+    }
+    /// called by the gating histogram handle (the writer's end-of-cycle recorder callbacks)
+    pub fn histogram_callback(&self) {
+        let mut g = self.lock();
+        if g.hclosed && !g.open {
+            g.hblocked += 1;
+            while g.hclosed && !g.open {
+                g = self.cv.wait(g).unwrap_or_else(|e| e.into_inner());
+            }
+            g.hblocked -= 1;
+        }
     }
     pub fn open(&self) {
         self.lock().open = true;
@@ -218,8 +249,12 @@ impl EntryIoStream for GateStream {
         // the flush gate: the call is logged when it returns
         if g.fclosed && !g.open {
             g.fblocked += 1;
-            while g.fclosed && !g.open {
+            while g.fclosed && !g.open && g.fpermits == 0 {
                 g = self.shared.cv.wait(g).unwrap_or_else(|e| e.into_inner());
+            }
+            if g.fclosed && !g.open {
+                g.fpermits -= 1;
+                g.fstepped += 1;
             }
             g.fblocked -= 1;
         }
@@ -245,6 +280,41 @@ pub struct Counters {
 
 #[derive(Clone, Default)]
 pub struct CountRecorder(pub Arc<Counters>);
+
+/// a recorder whose histogram handles (`metrique_idle_percent`, `metrique_queue_len`: recorded by the writer
+/// at the end of every cycle, after the stream flush) go through the recorder gate of a `GateShared`
+#[derive(Clone)]
+pub struct GatingRecorder {
+    pub counters: Arc<Counters>,
+    pub gate: Arc<GateShared>,
+}
+
+struct GateHistogram(Arc<GateShared>);
+
+impl metrics_024::HistogramFn for GateHistogram {
+    fn record(&self, _value: f64) {
+        self.0.histogram_callback();
+    }
+}
+
+impl metrics_024::Recorder for GatingRecorder {
+    fn describe_counter(&self, _: metrics_024::KeyName, _: Option<metrics_024::Unit>, _: metrics_024::SharedString) {}
+    fn describe_gauge(&self, _: metrics_024::KeyName, _: Option<metrics_024::Unit>, _: metrics_024::SharedString) {}
+    fn describe_histogram(&self, _: metrics_024::KeyName, _: Option<metrics_024::Unit>, _: metrics_024::SharedString) {}
+    fn register_counter(&self, key: &metrics_024::Key, _: &metrics_024::Metadata<'_>) -> metrics_024::Counter {
+        if key.name() == "metrique_queue_overflows" {
+            metrics_024::Counter::from_arc(self.counters.overflows.clone())
+        } else {
+            metrics_024::Counter::from_arc(self.counters.other.clone())
+        }
+    }
+    fn register_gauge(&self, _: &metrics_024::Key, _: &metrics_024::Metadata<'_>) -> metrics_024::Gauge {
+        metrics_024::Gauge::noop()
+    }
+    fn register_histogram(&self, _: &metrics_024::Key, _: &metrics_024::Metadata<'_>) -> metrics_024::Histogram {
+        metrics_024::Histogram::from_arc(Arc::new(GateHistogram(self.gate.clone())))
+    }
+}
 
 impl metrics_024::Recorder for CountRecorder {
     fn describe_counter(&self, _: metrics_024::KeyName, _: Option<metrics_024::Unit>, _: metrics_024::SharedString) {}
@@ -317,8 +387,8 @@ pub fn build(kind: Kind, cap: usize, interval: Duration, gated: bool) -> Built {
 
 pub fn build_with(kind: Kind, cap: usize, interval: Duration, gated: bool, shutdown_timeout: Option<Duration>) -> Built {
     let gate = Arc::new(GateShared::default());
-    let rec = CountRecorder::default();
-    let counters = rec.0.clone();
+    let counters: Arc<Counters> = Arc::default();
+    let rec = GatingRecorder { counters: counters.clone(), gate: gate.clone() };
     let b = BackgroundQueueBuilder::new()
         .capacity(cap)
         .flush_interval(interval)
@@ -375,6 +445,8 @@ impl tracing::Subscriber for FirstEvent {
 /// the writer unparked, `returned` when `drop` has returned.
 pub struct JoinDropper {
     pub begun: Arc<AtomicBool>,
+    /// the plain `drop(join_handle)` itself panicked (e.g. the writer thread had panicked)
+    pub panicked: Arc<AtomicBool>,
     pub returned: Arc<AtomicBool>,
     pub thread: Option<std::thread::JoinHandle<()>>,
 }
@@ -407,13 +479,19 @@ impl JoinDropper {
     pub fn start_how(join: BackgroundQueueJoinHandle, wait: Duration, how: DropHow) -> JoinDropper {
         let returned = Arc::new(AtomicBool::new(false));
         let begun = Arc::new(AtomicBool::new(false));
+        let panicked = Arc::new(AtomicBool::new(false));
+        let p2 = panicked.clone();
         let (r2, b2) = (returned.clone(), begun.clone());
         let thread = std::thread::Builder::new()
             .name("verif-joindrop".into())
             .spawn(move || {
                 let b3 = b2.clone();
                 match how {
-                    DropHow::Plain => tracing::subscriber::with_default(FirstEvent(b2), move || drop(join)),
+                    DropHow::Plain => tracing::subscriber::with_default(FirstEvent(b2), move || {
+                        if std::panic::catch_unwind(std::panic::AssertUnwindSafe(move || drop(join))).is_err() {
+                            p2.store(true, Ordering::SeqCst);
+                        }
+                    }),
                     DropHow::Unwind => tracing::subscriber::with_default(FirstEvent(b2), move || drop_while_unwinding(join)),
                     DropHow::PanickingThread => {
                         let inner = std::thread::Builder::new()
@@ -436,7 +514,7 @@ impl JoinDropper {
         while !begun.load(Ordering::SeqCst) && t0.elapsed() < wait {
             std::thread::yield_now();
         }
-        JoinDropper { begun, returned, thread: Some(thread) }
+        JoinDropper { begun, panicked, returned, thread: Some(thread) }
     }
     pub fn has_returned(&self) -> bool {
         self.returned.load(Ordering::SeqCst)
@@ -535,4 +613,117 @@ impl tracing::Subscriber for ErrorEventCounter {
     }
     fn enter(&self, _: &tracing::span::Id) {}
     fn exit(&self, _: &tracing::span::Id) {}
+}
+
+// ------------------------------------------------------------------------------------------------
+// queues built with extreme but legal builder values (C05: the shutdown contract holds for all of them)
+
+#[derive(Clone, Copy, Debug, PartialEq, Eq)]
+pub enum Timeout {
+    OneNano,
+    Default30s,
+    Max,
+    HalfMax,
+}
+
+impl Timeout {
+    pub fn all() -> [Timeout; 4] {
+        [Timeout::OneNano, Timeout::Default30s, Timeout::Max, Timeout::HalfMax]
+    }
+    pub fn name(self) -> &'static str {
+        match self {
+            Timeout::OneNano => "1ns",
+            Timeout::Default30s => "30s",
+            Timeout::Max => "max",
+            Timeout::HalfMax => "halfmax",
+        }
+    }
+    pub fn parse(s: &str) -> Option<Timeout> {
+        Timeout::all().into_iter().find(|t| t.name() == s)
+    }
+    pub fn duration(self) -> Duration {
+        match self {
+            Timeout::OneNano => Duration::from_nanos(1),
+            Timeout::Default30s => Duration::from_secs(30),
+            Timeout::Max => Duration::MAX,
+            Timeout::HalfMax => Duration::MAX / 2,
+        }
+    }
+}
+
+pub struct ExtremeCfg {
+    pub kind: Kind,
+    pub cap: usize,
+    pub interval: Duration,
+    pub timeout: Timeout,
+    pub recorder: bool,
+    pub named: bool,
+    pub slow_us: u64,
+}
+
+/// a gated queue with the given builder values (the recorder, if any, is a plain counting one)
+pub fn build_extreme(c: &ExtremeCfg) -> (Handle, BackgroundQueueJoinHandle, Arc<GateShared>) {
+    let gate = Arc::new(GateShared::default());
+    gate.slow_us.store(c.slow_us, Ordering::Relaxed);
+    let mut b = BackgroundQueueBuilder::new().capacity(c.cap).flush_interval(c.interval).shutdown_timeout(c.timeout.duration());
+    if c.named {
+        b = b.thread_name("verif-extreme").metric_name("verif-extreme-queue");
+    }
+    if c.recorder {
+        b = b.metrics_recorder_local::<dyn metrics_024::Recorder, _>(CountRecorder::default());
+    }
+    let stream = GateStream { shared: gate.clone(), gated: true };
+    let (handle, join) = match c.kind {
+        Kind::Typed => {
+            let (q, j) = b.build::<IdEntry>(stream);
+            (Handle::Typed(q), j)
+        }
+        Kind::Boxed => {
+            let (q, j) = b.build_boxed(stream);
+            (Handle::Boxed(q), j)
+        }
+    };
+    (handle, join, gate)
+}
+
+// ------------------------------------------------------------------------------------------------
+// a large inline entry type (C09: the configured capacity holds whatever the size of the entry type)
+
+pub struct BigEntry {
+    pub id: u64,
+    pub res: Res,
+    pub pad: [u8; 65536],
+}
+
+impl BigEntry {
+    pub fn new(id: u64) -> BigEntry {
+        BigEntry { id, res: Res::Ok, pad: [0u8; 65536] }
+    }
+}
+
+impl Entry for BigEntry {
+    fn write<'a>(&'a self, writer: &mut impl EntryWriter<'a>) {
+        writer.value("id", &self.id);
+        writer.value("res", &(self.res as u64));
+    }
+}
+
+pub struct BuiltBig {
+    pub queue: BackgroundQueue<BigEntry>,
+    pub join: BackgroundQueueJoinHandle,
+    pub gate: Arc<GateShared>,
+    pub counters: Arc<Counters>,
+}
+
+pub fn build_big(cap: usize) -> BuiltBig {
+    let gate = Arc::new(GateShared::default());
+    let rec = CountRecorder::default();
+    let counters = rec.0.clone();
+    let (queue, join) = BackgroundQueueBuilder::new()
+        .capacity(cap)
+        .flush_interval(Duration::from_secs(50))
+        .thread_name("verif-queue-big")
+        .metrics_recorder_local::<dyn metrics_024::Recorder, _>(rec)
+        .build::<BigEntry>(GateStream { shared: gate.clone(), gated: true });
+    BuiltBig { queue, join, gate, counters }
 }
